@@ -4,6 +4,7 @@ package table
 
 import (
 	"context"
+	"fmt"
 	"io"
 
 	"github.com/jamf/regatta/regattapb"
@@ -162,7 +163,61 @@ func (t *ActiveTable) Delete(ctx context.Context, req *regattapb.DeleteRangeRequ
 	return &regattapb.DeleteRangeResponse{Deleted: r.ResponseDeleteRange.Deleted, PrevKvs: r.ResponseDeleteRange.PrevKvs, Header: &regattapb.ResponseHeader{Revision: rev}}, nil
 }
 
+// validateTxn enforces the key and value limits on every operation nested in the transaction.
+func validateTxn(req *regattapb.TxnRequest) error {
+	for _, c := range req.Compare {
+		if len(c.Key) == 0 {
+			return serrors.ErrEmptyKey
+		}
+		if len(c.Key) > key.LatestVersionLen || len(c.RangeEnd) > key.LatestVersionLen {
+			return serrors.ErrKeyLengthExceeded
+		}
+	}
+	for _, ops := range [][]*regattapb.RequestOp{req.Success, req.Failure} {
+		for _, op := range ops {
+			switch o := op.Request.(type) {
+			case *regattapb.RequestOp_RequestRange:
+				if len(o.RequestRange.Key) == 0 {
+					return serrors.ErrEmptyKey
+				}
+				if len(o.RequestRange.Key) > key.LatestVersionLen || len(o.RequestRange.RangeEnd) > key.LatestVersionLen {
+					return serrors.ErrKeyLengthExceeded
+				}
+				if o.RequestRange.Limit < 0 {
+					return fmt.Errorf("%w: limit must be a positive number", serrors.ErrInvalidOperation)
+				}
+				if o.RequestRange.KeysOnly && o.RequestRange.CountOnly {
+					return fmt.Errorf("%w: keys_only and count_only must not be set at the same time", serrors.ErrInvalidOperation)
+				}
+			case *regattapb.RequestOp_RequestPut:
+				if len(o.RequestPut.Key) == 0 {
+					return serrors.ErrEmptyKey
+				}
+				if len(o.RequestPut.Key) > key.LatestVersionLen {
+					return serrors.ErrKeyLengthExceeded
+				}
+				if len(o.RequestPut.Value) > MaxValueLen {
+					return serrors.ErrValueLengthExceeded
+				}
+			case *regattapb.RequestOp_RequestDeleteRange:
+				if len(o.RequestDeleteRange.Key) == 0 {
+					return serrors.ErrEmptyKey
+				}
+				if len(o.RequestDeleteRange.Key) > key.LatestVersionLen || len(o.RequestDeleteRange.RangeEnd) > key.LatestVersionLen {
+					return serrors.ErrKeyLengthExceeded
+				}
+			default:
+				return fmt.Errorf("%w: request must be set", serrors.ErrInvalidOperation)
+			}
+		}
+	}
+	return nil
+}
+
 func (t *ActiveTable) Txn(ctx context.Context, req *regattapb.TxnRequest) (*regattapb.TxnResponse, error) {
+	if err := validateTxn(req); err != nil {
+		return nil, err
+	}
 	// Do not propose read-only transactions through the log
 	if req.IsReadonly() {
 		return readTable[*regattapb.TxnResponse](t, ctx, true, req)
@@ -199,6 +254,12 @@ func (t *ActiveTable) Txn(ctx context.Context, req *regattapb.TxnRequest) (*rega
 
 // Iterator returns open pebble.Iterator it is an API consumer responsibility to close it.
 func (t *ActiveTable) Iterator(ctx context.Context, req *regattapb.RangeRequest) (iter.Seq[*regattapb.ResponseOp_Range], error) {
+	if len(req.Key) > key.LatestVersionLen {
+		return nil, serrors.ErrKeyLengthExceeded
+	}
+	if len(req.RangeEnd) > key.LatestVersionLen {
+		return nil, serrors.ErrKeyLengthExceeded
+	}
 	return readTable[iter.Seq[*regattapb.ResponseOp_Range]](t, ctx, req.Linearizable, fsm.IteratorRequest{RangeOp: &regattapb.RequestOp_Range{
 		Key:       req.Key,
 		RangeEnd:  req.RangeEnd,
